@@ -245,8 +245,15 @@ func GetModel(o *Obligation, timeoutMs int) (map[string]string, string) {
 	file := filepath.Join(dir, safeFile(o.Name)+".model.smt2")
 	q := o.Query(true) + "(get-model)\n"
 	os.WriteFile(file, []byte(q), 0o644)
-	_, out, _ := runSolver(context.Background(), solvers[0], file, timeoutMs)
+	return modelOfFile(file, timeoutMs)
+}
+
+func modelOfFile(file string, timeoutMs int) (map[string]string, string) {
+	st, out, _ := runSolver(context.Background(), solvers[0], file, timeoutMs)
 	m := map[string]string{}
+	if st != "sat" {
+		return m, out
+	}
 	// z3 prints (define-fun name () Sort\n    value)
 	flat := regexp.MustCompile(`\s+`).ReplaceAllString(out, " ")
 	re := regexp.MustCompile(`\(define-fun (\S+) \(\) (Int|Bool) (\(- \d+\)|-?\d+|true|false)\)`)
